@@ -48,7 +48,9 @@ PROPS["C18"] = dict(
                 "constants 180/2^45, 90/2^45, the pole adjustment and the addition of 2^45 are proved exact). "
                 "End to end on the exact cell: gars_cell_contains and geohash_cell_contains (the decoded cell of the exact code contains the prepared point, "
                 "every accepted finite position, every precision/length). "
-                "Not proved: scale_contains for the multi-step OSGB scale; decode∘encode for Georef/OSGB (correspondence only)."),
+                "Georef integer round trip for every cell and precision: georef_decode_encode_tile / _degree / _long (the digit loop of Reverse is "
+                "turned into a fold, Proofs/GeorefLoop.lean, and evaluated on the digits of the encoder for all prec 2..11). "
+                "Not proved: scale_contains for the multi-step OSGB scale; decode∘encode for OSGB (its Reverse is floating point; correspondence only)."),
     level_note=("alphabets and integer constants of all four classes regenerated from the sources each run; hand-written models of Forward/Reverse; "
                 "pow(10,k) and integer→double conversions assumed exact (they are, for the ranges used)"),
     technique="Lean 4 proof of the integer codecs + exact-arithmetic correspondence of the scaling step and decoders against the implementation",
